@@ -209,3 +209,59 @@ func zzC10_constructor(proto int) {
 	}
 	verifReach("C10 constructor")
 }
+
+// zzC10_start_seed: Start with a seed of any length. A rejected Start (the dealer needs at least
+// KeyGenSeedMinLen bytes) must leave the instance as it was -- in particular not running -- so that later
+// messages are refused by the state machine instead of reaching code that assumes a dealt polynomial.
+func zzC10_start_seed(proto, role, seedLen int) {
+	const n, t = 3, 1
+	me, d := 1, 0
+	if role == 1 {
+		me = 0
+	}
+	proc := &recProc{}
+	var st DKGState
+	var err error
+	switch proto {
+	case 0:
+		st, err = NewFeldmanVSS(n, t, me, proc, d)
+	case 1:
+		st, err = NewFeldmanVSSQual(n, t, me, proc, d)
+	default:
+		st, err = NewJointFeldman(n, t, me, proc)
+	}
+	verifAssert(err == nil, "constructor accepts valid parameters")
+	before := snapDKG(st, n)
+	got := st.Start(nondetBytes(seedLen))
+	dealer := me == d || proto == 2
+	if dealer && seedLen < KeyGenSeedMinLen {
+		verifAssert(got != nil, "a dealer's Start with a seed that is too short is rejected")
+		verifAssert(IsInvalidInputsError(got), "with an invalid-input error")
+		verifAssert(!st.Running(), "a rejected Start leaves the instance not running")
+		verifAssert(proc.callbacks() == 0, "and sends nothing")
+		if proto != 2 {
+			// (Joint-Feldman: the inner instances' flags are reset by the next Start and are not observable)
+			after := snapDKG(st, n)
+			verifAssert(len(after) == len(before), "rejected Start leaves the state unchanged (shape)")
+			for i := range before {
+				if i < len(after) {
+					verifAssert(after[i] == before[i], "rejected Start leaves the state unchanged")
+				}
+			}
+		}
+		// later traffic is refused by the state machine (and must not panic)
+		other := 2
+		e := st.HandleBroadcastMsg(other, []byte{byte(feldmanVSSComplaint), byte(me)})
+		verifAssert(IsDKGInvalidStateTransitionError(e), "messages after a rejected Start are refused: the instance is not running")
+		e = st.HandlePrivateMsg(other, nondetBytes(33))
+		verifAssert(IsDKGInvalidStateTransitionError(e), "private messages after a rejected Start are refused")
+		// the instance can still be started properly
+		verifAssert(st.Start(nondetBytes(KeyGenSeedMinLen)) == nil, "a proper Start after a rejected one is accepted")
+		verifAssert(st.Running(), "and the instance is then running")
+		verifReach("start rejected")
+		return
+	}
+	verifAssert(got == nil, "Start with a long enough seed (or as a non-dealer) is accepted")
+	verifAssert(st.Running(), "and the instance is running")
+	verifReach("start accepted")
+}
